@@ -236,6 +236,14 @@ def run_case(ctx, chi, rng, n_ids, subs, tag='gen'):
             psi_c = pm.compute_individual_parameters(top_full[free_mask], eta, covariates=cov) \
                 if n_cov else pm.compute_individual_parameters(top_full[free_mask], eta)
         ctx.agree('C02.individual_parameters', np.asarray(psi_c, float), psi_m, inp)
+        # `_shape_eta` itself: the reshaped individual-level entries (model: ShapeEta.shapeRow); the
+        # special columns are uninitialised in the model and filled by the pooled / heterogeneous
+        # sub-models in chi, so only the routed cells are compared
+        eta_c = np.asarray(eta, float)
+        routed_c = [[eta_c[i][d] for d in range(eta_c.shape[1]) if shaped[i][d] is not None]
+                    for i in range(n_ids)]
+        routed_m = [[x for x in row if x is not None] for row in shaped]
+        ctx.agree('C02.shape_eta_routing', routed_c, routed_m, inp)
     try:
         # layout / names / ids
         names_c = hll.get_parameter_names()
